@@ -87,6 +87,18 @@ CLAIMED = {
              'curvature check off by default); pow/PSD cones are abstract predicates; float semantics in the oracle use margins.',
         technique='Lean 4 proof (compiler-correctness style, Mathlib real analysis) + model/implementation correspondence check',
         design_ref='DESIGN.md 4/C07'),
+    'C11': dict(
+        text='Theorems about compilation as a state transformer on constraint objects and about finite histories of '
+             'compilations interleaved with unrelated Variable creation: the objects keep their state (invariant by induction '
+             'over all histories), every compile in any history equals the compile of a fresh copy up to the zero-valued dummy '
+             'column, mixed index generations are rejected. Tied to the code by random histories over shared objects (compile '
+             'sub-lists, Problem+solve, pickle round trips, clear_variable_indices, SAGE default flips): blocks, variable map and '
+             'the serialised post-state of the objects are compared with the model; each compile/solve is also compared with a '
+             'freshly rebuilt copy.',
+        note='optimal values come from ECOS (1e-5 relative, failures inconclusive); CPython pickle trusted; the SAGE '
+             'settings-snapshot clause is checked on the implementation (construct, flip default, compile vs fresh).',
+        technique='Lean 4 proof (induction over operation histories) + model/implementation correspondence check on histories',
+        design_ref='DESIGN.md 4/C11'),
 }
 
 NOT_YET = 'check not built yet in this session (planned, see DESIGN.md section 6); not claimed until its theorems and correspondence exist'
